@@ -152,15 +152,21 @@ func lruProperty(regimes []string) func(t *rapid.T) {
 				time.Sleep(2 * time.Microsecond)
 			}
 		}
+		lastPut := map[string]int{}
 		acts := map[string]func(*rapid.T){
 			"put": func(t *rapid.T) {
 				pre()
 				k := keyGen.Draw(t, "k")
 				n++
+				v := n
+				if old, ok := lastPut[k]; ok && rapid.IntRange(0, 3).Draw(t, "same-value") == 0 {
+					v = old // writing the value that is already stored is still a write: it refreshes recency
+				}
+				lastPut[k] = v
 				t0 := time.Now()
-				c.Put(k, n)
+				c.Put(k, v)
 				t1 := time.Now()
-				m.put(k, n, t0, t1)
+				m.put(k, v, t0, t1)
 				steps = append(steps, lruStep{"put", k, ""})
 			},
 			"putMany": func(t *rapid.T) {
@@ -310,7 +316,9 @@ func lruProperty(regimes []string) func(t *rapid.T) {
 			t.Repeat(map[string]func(*rapid.T){
 				"": acts[""], "put": acts["put"], "put2": acts["put"], "get": acts["get"], "get2": acts["get"], "get3": acts["get"],
 				"sleep": acts["sleep"], "sleep2": acts["sleep"], "sleep3": acts["sleep"],
-				"rare": func(t *rapid.T) { acts[rapid.SampledFrom([]string{"sweep", "sweep", "delete", "clear"}).Draw(t, "rare-op")](t) },
+				"rare": func(t *rapid.T) {
+					acts[rapid.SampledFrom([]string{"sweep", "sweep", "delete", "clear"}).Draw(t, "rare-op")](t)
+				},
 			})
 		} else {
 			t.Repeat(c12Weighted(acts, rare))
@@ -403,8 +411,12 @@ func TestC12_SearchCache(t *testing.T) {
 				q, o := draw(t)
 				n++
 				var res []cache.SearchResult
+				stamp := n
+				if rapid.IntRange(0, 3).Draw(t, "same-results") == 0 && n > 1 {
+					stamp = rapid.IntRange(1, n-1).Draw(t, "earlier") // a result list equal to one stored before
+				}
 				for i := rapid.IntRange(0, 3).Draw(t, "nres"); i > 0; i-- {
-					res = append(res, cache.SearchResult{Command: fmt.Sprintf("c%d-%d", n, i), Score: float64(n)})
+					res = append(res, cache.SearchResult{Command: fmt.Sprintf("c%d-%d", stamp, i), Score: float64(stamp)})
 				}
 				sc.Put(q, o, res)
 				steps = append(steps, fmt.Sprintf("put(%q,%d results)", q, len(res)))
